@@ -810,6 +810,7 @@ func (bc *BlockChain) WriteBlockWithState(block *types.Block, state *state.State
 	for key, value := range map[string]common.Hash{"state": root, "val": valRoot, "staking": stakingRoot} {
 		if err := state.Database().TrieDB().Commit(value, false); err != nil {
 			logging.Error("commit trieDb failed", "trie", key, "err", err)
+			return err
 		}
 	}
 
